@@ -15,7 +15,11 @@ import (
 	"github.com/evolbioinfo/goalign/align"
 	"github.com/evolbioinfo/goalign/distance/dna"
 	"github.com/evolbioinfo/goalign/io/phylip"
+	"github.com/evolbioinfo/goalign/models"
+	mdna "github.com/evolbioinfo/goalign/models/dna"
+	mprot "github.com/evolbioinfo/goalign/models/protein"
 	"strings"
+	"sync"
 )
 
 type failModel struct {
@@ -132,6 +136,79 @@ func phylipStreamBodies(reps int) {
 	}
 }
 
+// modelBodies: every goroutine owns its model objects (nothing is shared at the API level), initialises
+// them and evaluates P(t); the values must be those of the same work done alone.
+func modelBodies(reps int) {
+	type job func() string
+	mk := func(k int) job {
+		f := float64(k%5) * 0.03
+		piA, piC, piG := 0.1+f, 0.2, 0.3
+		piT := 1 - piA - piC - piG
+		return func() (res string) {
+			defer func() {
+				if r := recover(); r != nil {
+					res = fmt.Sprint("panic: ", r)
+				}
+			}()
+			var ms []models.Model
+			m1 := mdna.NewF81Model()
+			m1.InitModel(piA, piC, piG, piT)
+			m2 := mdna.NewTN93Model()
+			m2.InitModel(1.5+f, 0.7, piA, piC, piG, piT)
+			m3 := mdna.NewGTRModel()
+			m3.InitModel(1, 2+f, 0.5, 1.2, 3, 0.8, piA, piC, piG, piT)
+			m4 := mdna.NewK2PModel()
+			m4.InitModel(2 + f)
+			m5 := mdna.NewF84Model()
+			m5.InitModel(1.2+f, piA, piC, piG, piT)
+			ms = append(ms, m1, m2, m3, m4, m5)
+			for _, id := range []int{mprot.MODEL_LG, mprot.MODEL_WAG} {
+				if pm, err := mprot.NewProtModel(id, false, 0); err == nil && pm.InitModel(nil) == nil {
+					ms = append(ms, pm)
+				}
+			}
+			var sb strings.Builder
+			for _, m := range ms {
+				p, err := models.NewPij(m, 0.1+f)
+				if err != nil {
+					fmt.Fprint(&sb, "err:", err, ";")
+					continue
+				}
+				for i := 0; i < 4; i++ {
+					for j := 0; j < 4; j++ {
+						fmt.Fprintf(&sb, "%x,", p.Pij(i, j))
+					}
+				}
+			}
+			return sb.String()
+		}
+	}
+	const nj = 8
+	want := make([]string, nj)
+	for k := range want {
+		want[k] = mk(k)()
+	}
+	for r := 0; r < reps*40; r++ {
+		var wg sync.WaitGroup
+		got := make([]string, nj)
+		for k := 0; k < nj; k++ {
+			wg.Add(1)
+			go func(k int) {
+				defer wg.Done()
+				got[k] = mk(k)()
+			}(k)
+		}
+		wg.Wait()
+		for k := range got {
+			if strings.HasPrefix(got[k], "panic: ") {
+				fmt.Println("RACEPASS-PANIC", got[k])
+			} else if got[k] != want[k] {
+				fmt.Println("RACEPASS-RESULT-DIFFERS")
+			}
+		}
+	}
+}
+
 func main() {
 	log.SetOutput(io.Discard)
 	what := os.Args[1]
@@ -145,6 +222,8 @@ func main() {
 			phaseBodies(reps)
 		case "phylipstream":
 			phylipStreamBodies(reps)
+		case "models":
+			modelBodies(reps)
 		}
 	}
 	fmt.Println("RACEPASS-DONE")
